@@ -526,3 +526,46 @@ func VH_C07_X2_kill_dst_switch() {
 	s.checkAllKnown("after-kill-and-restart", "F21", stale)
 	s.st.Close()
 }
+
+// C07-X2d: kill in the middle of a file the pass REWRITES IN PLACE. The GC history file
+// (nextgc.txt) is rewritten with open(O_TRUNC) + write after every collected source file; a
+// kill between the two leaves it empty (or, on some file systems, holding garbage or missing).
+// The directory snapshot taken at a control point after the first source file is modified
+// accordingly; after restart every key still reads its pre-GC value - the store must come up.
+func VH_C07_X2_torn_gc_history() {
+	s := newScen(512, false, "ka", "kb", "kc")
+	s.distinct = true
+	s.setS("ka") // file0
+	s.setS("kb") // file0
+	s.setS("ka") // file1  (ka@0 superseded)
+	s.setS("kc") // file1
+	s.setS("kb") // file2  (kb@0 superseded)
+	s.del("kc")  // file2
+	s.setS("ka") // file3 = head
+	s.flush()
+	if vrt.Bool("earlier-pass-wrote-the-history-file") {
+		s.gc(0, 0, false)
+	}
+	point := []string{"gc:after-clear", "gc:after-nextgc", "gc:before-truncate", "gc:after-truncate", "gc:dst-switch"}[vrt.Choice("point", 5)]
+	occ := vrt.Choice("occurrence", 3)
+	var snap string
+	done := atPoint(point, occ, func() { snap = vrt.SnapshotDir(s.dir) })
+	r := [][2]int{{0, 2}, {1, 2}}[vrt.Choice("range", 2)]
+	s.gc(r[0], r[1], vrt.Bool("merge"))
+	vrt.Assume(done())
+	hist := snap + "/nextgc.txt"
+	switch vrt.Choice("torn-history-file", 4) {
+	case 0: // as the snapshot has it
+	case 1: // truncated by the open, not yet written
+		vrt.Assert("write-empty", writeFileBytes(hist, nil) == nil)
+	case 2: // garbage
+		vrt.Assert("write-garbage", writeFileBytes(hist, []byte{0, 0xff, 'x'}) == nil)
+	case 3:
+		os.Remove(hist)
+	}
+	stale := staleTail(snap, 4)
+	Conf.Home = snap
+	s.open()
+	s.checkAllKnown("after-kill-and-restart", "F21", stale)
+	s.st.Close()
+}
